@@ -36,7 +36,9 @@ MANIFEST = {
             'differently. Built-ins are compared with the math module, random '
             'by range and completeness of 3000 draws per range. Sampled.'
             ' Integer literals between 2^53 and 2^90 are compared with Py'
-            'thon integers in differences, remainders and comparisons.',
+            'thon integers in differences, remainders and comparisons.'
+            ' In raw units duration and time are set from expressions bey'
+            'ond 16 bits and read back.',
     'note': 'Trusted: Python arithmetic as the meaning of + - * / % ^ and the '
             'comparisons; unary minus binds to the following atom (a signed '
             'operand is always parenthesised where that matters); negative '
